@@ -173,6 +173,10 @@ C12Call ==
               Unchanged(a, b, {Dhuhr, Asr} \cup (IF Ev.p.fi = 0 THEN {Fajr, Imsaak} ELSE {})
                                            \cup (IF Ev.p.ii = 0 THEN {Isha} ELSE {}))
          [] k = "defw" -> Unchanged(a, b, P7)     \* absent weather = default weather
+         [] k = "ipol" ->     \* b = a call under a policy that does not consume the intervals: an interval-defined
+                              \* Fajr / Isha is that interval from the REPORTED Shurooq / Maghrib
+              /\ (Ev.p.ii # 0 /\ Ok(b, Maghrib)) => Ok(b, Isha) /\ Near(b.t[Isha], b.t[Maghrib] + Ev.p.ii, 1)
+              /\ (Ev.p.fi # 0 /\ Ok(b, Shurooq)) => Ok(b, Fajr) /\ Near(b.t[Fajr], b.t[Shurooq] - Ev.p.fi, 1)
          [] k = "xfajr" ->    \* b = a call under a policy: extreme Fajr => Imsaak 1.5 min before, extreme
               (Ok(b, Fajr) /\ Flagged(b, Fajr)) =>
                   /\ Ok(b, Imsaak) /\ Flagged(b, Imsaak)
